@@ -7,6 +7,7 @@ import (
 	"math"
 	"sort"
 	"sync"
+	"time"
 
 	"github.com/mandykoh/prism/linear"
 
@@ -25,8 +26,11 @@ type c02Enc struct {
 
 func c02Encoders() []c02Enc {
 	var es []c02Enc
-	for _, s := range libSpaces[:3] {
+	for _, s := range libSpaces {
 		s := s
+		if s.To8 == nil {
+			continue
+		}
 		es = append(es,
 			c02Enc{s.Name + ".To8Bit", 255, 511, s.Ref.Curve.OETF, func(x float32) int { return int(s.To8(x)) }},
 			c02Enc{s.Name + ".To16Bit", 65535, 65535, s.Ref.Curve.OETF, func(x float32) int { return int(s.To16(x)) }})
@@ -254,10 +258,16 @@ func runC02(r *core.Run) {
 		codesSeen[e.Name] = c
 		mu.Unlock()
 	}
+	if r.Variant == "" {
+		for _, v := range []string{"decfirst", "decfirst+rev"} {
+			r.RunVariantChild(v, 10*time.Minute, false)
+		}
+		r.Obs("fresh_process_variants", []string{"decfirst", "decfirst+rev"})
+	}
 	r.Obs("distinct_code_side_pairs_per_encoder", codesSeen)
 	r.Obs("quick_points_per_encoder", len(pts))
-	r.Sample(map[string]any{"encoder": "srgb.To8Bit", "x": 0.5, "result": encs[0].F(0.5)})
-	r.Sample(map[string]any{"encoder": "prophotorgb.To16Bit", "x": 0.001953125, "result": encs[5].F(0.001953125)})
+	r.Sample(map[string]any{"encoder": encs[0].Name, "x": 0.5, "result": encs[0].F(0.5)})
+	r.Sample(map[string]any{"encoder": encs[5].Name, "x": 0.001953125, "result": encs[5].F(0.001953125)})
 	c02ColorTypes(r)
 }
 
@@ -512,5 +522,5 @@ func replayC02(stage string, raw json.RawMessage) (bool, string, error) {
 }
 
 func init() {
-	core.Register(&core.Property{ID: "C02", Level: "exploration", Run: runC02, Replay: replayC02})
+	core.Register(&core.Property{ID: "C02", Level: "exploration", Run: runC02, Replay: replayC02, Child: variantChild("C02", "exploration", runC02)})
 }
